@@ -28,14 +28,19 @@ EXPLANATION = ('theorems C16_* (coq/props/C16.v) hold for all lists over any typ
 TRUSTED = ['modelled, not verified: CPython dict (insertion-ordered map with in-place assignment), set iteration order (any permutation; proved irrelevant), '
            'copy.copy of a dict subclass (fresh object with the same items), inspect-based getargs (names of positional parameters)']
 ASSUMPTIONS = ['elements are hashable with a lawful == (no NaN)', 'mapping keys are str without dots, values are leaves (not dicts); nested merge is C15',
-               'callables passed to Dict.__call__ take positional parameters without defaults and do not raise']
+               'callables passed to Dict.__call__ take positional parameters without defaults and do not raise',
+               "inherent name collisions of a dict subclass are outside the property: attribute access d.k for a key named like an attribute of dict / dictattr / Dict "
+               "(keys, items, copy, ...) finds the method, and the KEYWORD spelling d.relabel(keys=...) / d.relabel(self=...) cannot name those two keys (the dict / affix / "
+               "callable spellings can)",
+               'operands of d - keys are a key or a list (ulist) of keys as the statement lists; a dict_keys view (dictattr(a=1) - dict(a=1).keys()) is taken for one unhashable key and raises TypeError']
 EXHAUSTIVE = {'quick': False, 'thorough': False}
 LEVEL_TEXT = ('machine-checked Coq theorems (C16_*) for all lists / mappings / dependency graphs and every keyword permutation, about executable models of '
               'ulist, dictattr and Dict.__call__; the models are compared with the real classes inside Coq on every loop-free dependency graph with <= 4 '
               'derived keys in every keyword order and on thousands of generated operator cases')
 LEVEL_NOTE = ('trusted: Coq kernel/vm_compute; modelled not verified: CPython dict/set/copy semantics. Known findings: Dict + <instance of a dict subclass other '
               "than dict/dictattr/Dict> raises ValueError (tree_update recognises branches by exact type); a mapping entry or keyword literally named 'self' makes "
-              'Dict.__call__ raise TypeError (theorems assume self_free; Coq: C16_call_self_named_key_refuted)')
+              'Dict.__call__ raise TypeError (theorems assume self_free; Coq: C16_call_self_named_key_refuted). Assumed away (see ASSUMPTIONS): attribute access for keys named like dict '
+              'attributes, relabel(keys=...)/relabel(self=...) in the keyword spelling, a dict_keys operand of d - keys')
 TECHNIQUE = 'Coq proof (induction, invariant over the round loop, uniqueness of solutions of an acyclic equation system) + differential correspondence in vm_compute'
 
 INCLUDE_SUBCLASS_OTHER = True     # generate Dict-family + user-subclass operands (the known finding class)
